@@ -15,6 +15,18 @@ PROPS = {
 }
 
 
+# which finite sub-spaces a tier enumerates completely (the rest is boundary-dense + seeded random)
+EXHAUSTIVE_PARTS = {
+    ("quant", "quick"): ["every value of the 8-bit source types (points)", "every value of the 16-bit source types (run-length records), incl. all widening round trips"],
+    ("quant", "thorough"): ["every value of the 8-, 16- and 32-bit source types for all 121 pairs (32-bit: 2^32 values per pair as run-length records), incl. all widening round trips"],
+    ("floatfix", "thorough"): ["every non-NaN float32 bit pattern into the 8- and 16-bit destinations (Seg/Clip records)"],
+    ("fixfloat", "quick"): ["every value of the 8-bit source types"],
+    ("fixfloat", "thorough"): ["every value of the 8- and 16-bit source types", "the round trip of all 2^32 codes of int32 and uint32 through float64 (RTSeg records)"],
+    ("depth", "quick"): ["all 64 depths; Scale for all pairs h >= l in 1..64 and all 11 integer types"],
+    ("depth", "thorough"): ["all 64 depths; Scale for all pairs h >= l in 1..64 and all 11 integer types"],
+}
+
+
 def event_of(path, line):
     """(Start record of the scan, event) for 1-based `line`."""
     with open(path) as f:
@@ -135,7 +147,8 @@ def run(ctx):
                distinct_nontrivial=st["cases"],
                rule="every event is a distinct exact (input, output) pair, run or round trip produced by the real function; Seg/RTSeg/Clip records stand for every element of a run of consecutive inputs (rule equivalent to checking each element)",
                ops=st["ops"], instantiations=st["types"], known_findings_seen=len(kn), mismatches_other_classes=len(other),
-               capped_sweeps=st["extra"].get("capped_sweeps", 0), exhaustive=False)
+               capped_sweeps=st["extra"].get("capped_sweeps", 0), exhaustive=False,
+               exhaustive_parts=EXHAUSTIVE_PARTS.get((spec["profile"], ctx.tier), []))
     if mc:
         cov.update(states=mc["distinct"], transitions=mc["generated"], model=dict(module="MCNum", family=spec["mc"][1], depth=mc["depth"], exhaustive=True))
     write_evidence(ctx, "model_checking", cov,
